@@ -50,10 +50,19 @@ def scenarios21(tier, dll="j1939-21"):
             tr0, sim0 = scen.run(sc0)
             nfr = sim0.nframes
             follow = gen21.send(6_000_000, "A", 0x10, sc0["sends"][0]["pf"], sc0["sends"][0]["ps"], size + 1, salt=9)
+            t_last = max(e["t"] for e in tr0["ev"] if e["ev"] == "tx")
+            early = gen21.send(t_last + 100_000, "A", 0x10, sc0["sends"][0]["pf"], sc0["sends"][0]["ps"], size + 1, salt=9)
             for k in range(nfr):
                 sc = dict(sc0, sends=sc0["sends"] + [follow], drop=[k], dur=16_000_000,
                           expect={"all": False, "idle": True, "must": [2], "slack": 0})
                 out.append(sc)
+                if kind == "bam" and k > 0:
+                    # the originator of a broadcast does not notice the loss: its next broadcast starts while the
+                    # receivers still hold the incomplete one (within T1).  The property promises delivery only for a
+                    # transfer started after the time-out, so here only "exact payload or nothing, never a mixed one"
+                    # is demanded (observation O3: the FD stack drops such a broadcast when the EOM status was lost)
+                    out.append(dict(sc0, sends=sc0["sends"] + [early], drop=[k], dur=8_000_000,
+                                    expect={"all": False, "idle": True, "slack": 0}))
                 for who in ("A", "B"):
                     sc = dict(sc0, sends=sc0["sends"] + [follow], silence=[{"node": who, "from": k}],
                               dur=16_000_000,
@@ -70,7 +79,8 @@ def run(chk, replay):
     chk.level = "model_checking"
     chk.rule = ("every transfer shape (BAM / RTS-CTS, sizes giving 2..12 packets, windows 1,2,3,all) x loss of the "
                 "k-th bus frame for EVERY k x silence of either peer from frame k on for EVERY k, each followed by a "
-                "fresh transfer on the same pair; distinct = distinct abstract event sequence; non-trivial = a frame "
+                "fresh transfer on the same pair (after everything has timed out; for broadcasts also 100 ms after the "
+                "originator finished, i.e. while the receivers still hold the incomplete one); distinct = distinct abstract event sequence; non-trivial = a frame "
                 "was actually lost / a peer actually fell silent")
     chk.assumptions = ["a lost frame is lost for every receiver (bus-level loss)",
                        "a silent peer neither sends nor reacts from the k-th bus frame on",
